@@ -2,6 +2,7 @@ package main
 
 import (
 	"bytes"
+	"crypto/rand"
 	"crypto/x509"
 	"fmt"
 	"net/http"
@@ -11,6 +12,7 @@ import (
 	"github.com/WICG/webpackage/go/bundle"
 	sxg "github.com/WICG/webpackage/go/signedexchange"
 	"github.com/WICG/webpackage/go/signedexchange/certurl"
+	vh "github.com/WICG/webpackage/go/verifhook"
 )
 
 // runMany calls f from n goroutines released together, plus twice sequentially,
@@ -123,6 +125,14 @@ func opConcSigner(a []Sx) Sx {
 	n := a[2].Int()
 	signer := &sxg.Signer{Date: time.Unix(baseDate, 0), Expires: time.Unix(baseDate+100, 0), Certs: []*x509.Certificate{key.cert},
 		CertUrl: mustURL("https://cert.example.org/cert.cbor"), ValidityUrl: mustURL("https://example.com/v"), PrivKey: key.priv}
+	if len(a) > 3 && a[3].IsSym("alg") {
+		// the caller supplies ONE algorithm object (Signer.Algorithm), used by every goroutine
+		alg, err := vh.SigningAlgorithmForPrivateKey(key.priv, rand.Reader)
+		if err != nil {
+			return L(Sym("noalg"))
+		}
+		signer.Algorithm = alg
+	}
 	chain := chainBytes([][]byte{key.der})
 	oks := make([]bool, n)
 	var wg sync.WaitGroup
@@ -131,6 +141,7 @@ func opConcSigner(a []Sx) Sx {
 		wg.Add(1)
 		go func(i int) {
 			defer wg.Done()
+			defer func() { recover() }() // a goroutine that dies leaves its verdict false
 			e := exchangeOf(a[0])
 			<-start
 			if err := e.MiEncodePayload(16); err != nil {
